@@ -268,11 +268,11 @@ func (s *syncCase) diffSides() (class, what string, err error) {
 func runC02(tier string, _ []string) int {
 	c := vlib.NewCtx("C02", tier, "exploration")
 	vlib.SetPortBlock(2)
-	c.SetRule("per scenario a downstream instance (real Sync client, period 1 s) linked to a bare upstream instance; a PRNG history of 6-25 acknowledged steps over {node-point write, edge-point write, create node, delete, undelete} x {downstream, upstream} x nodes inside the device subtree (nested groups), interleaved with link loss (sync node disabled), recovery, upstream restarts on the same file (also in two steps: the bus first, the store later, so that the downstream's reconnect and first catch-up attempt find a bus nobody answers on) restarts of the downstream instance itself, and writes placed *inside* a catch-up pass (performed from the sync.afterLocalFetch / afterRemoteFetch / beforeChildren hook sites in the sync client's own goroutine, aimed at the node the pass is comparing), always followed by a fixed list of corner scenarios (both sides write one identity during an outage; create upstream / downstream during an outage; delete downstream / upstream during an outage; delete + undelete; nested create under a node created during the outage; an identity rewritten with its old content and a newer time after the other side wrote another value). After the last write the link is up; catch-up passes are counted passively (nodes.all.<device> requests on the downstream bus) and after each pass both device subtrees are walked (deleted included) and compared: placements, newest point per identity of every node and edge. Convergence is demanded within 10 passes and must then hold on two consecutive walks; the agreed value of every identity the harness wrote must be at least as new as the newest acknowledged write on either side, and anything newer must have been seen on a bus. distinct = (set of operation kinds performed during outages, passes needed)")
+	c.SetRule("per scenario a downstream instance (real Sync client, period 1 s) linked to a bare upstream instance; a PRNG history of 6-25 acknowledged steps over {node-point write, edge-point write, create node, delete, undelete} x {downstream, upstream} x nodes inside the device subtree (nested groups), interleaved with link loss (sync node disabled), recovery, upstream restarts on the same file (also in two steps: the bus first, the store later, so that the downstream's reconnect and first catch-up attempt find a bus nobody answers on) restarts of the downstream instance itself, and writes placed *inside* a catch-up pass (performed from the sync.afterLocalFetch / afterRemoteFetch / beforeChildren hook sites in the sync client's own goroutine, aimed at the node the pass is comparing), always followed by a fixed list of corner scenarios (both sides write one identity during an outage; create upstream / downstream during an outage; delete downstream / upstream during an outage; delete + undelete; nested create under a node created during the outage; an identity rewritten with its old content and a newer time after the other side wrote another value; the device node itself mirrored into a group of the upstream and taken out again before an outage). After the last write the link is up; catch-up passes are counted passively (nodes.all.<device> requests on the downstream bus) and after each pass both device subtrees are walked (deleted included) and compared: placements, newest point per identity of every node and edge. Convergence is demanded within 10 passes and must then hold on two consecutive walks; the agreed value of every identity the harness wrote must be at least as new as the newest acknowledged write on either side, and anything newer must have been seen on a bus. distinct = (set of operation kinds performed during outages, passes needed)")
 	c.Assume("the device's own top edge upstream is not compared (deliberately not synchronised); origins are not compared (whole-node transfer stamps the sync node as origin); binary data and tombstone counts are; equal timestamps on one identity are not generated")
-	nScen := c.N(19, 152)
+	nScen := c.N(20, 160)
 	wd := c.NewWatchdog()
-	corners := []string{"both-write-same-identity", "create-upstream", "create-downstream", "delete-downstream", "delete-upstream", "delete-undelete-downstream", "nested-create-downstream", "nested-create-upstream", "upstream-restart", "mid-pass", "upstream-restart-store-late", "edge-point-upstream", "downstream-restart", "glued-identities", "glued-identities", "late-delivery", "late-delivery", "same-content-rewritten", "random"}
+	corners := []string{"both-write-same-identity", "create-upstream", "create-downstream", "delete-downstream", "delete-upstream", "delete-undelete-downstream", "nested-create-downstream", "nested-create-upstream", "upstream-restart", "mid-pass", "upstream-restart-store-late", "edge-point-upstream", "downstream-restart", "glued-identities", "glued-identities", "late-delivery", "late-delivery", "same-content-rewritten", "device-mirrored-upstream", "random"}
 	vlib.Parallel(nScen, 4, func(i int) {
 		r := vlib.NewR(c.Seed, "c02", i)
 		s := &syncCase{c: c, wd: wd, i: i, r: r, clock: 1750000000e9, tapped: map[string]bool{}, outage: map[string]bool{}, history: map[string]bool{}}
@@ -657,6 +657,35 @@ func runC02(tier string, _ []string) int {
 					side := []string{"D", "U"}[k%2]
 					mark("write@" + side)
 					step(s.write(side, false, v1.ID, "", data.Point{Type: "value", Time: s.now(), Value: float64(100 + k), Origin: "harness"}))
+				}
+			case "device-mirrored-upstream":
+				// upstream-only housekeeping on the device node itself: it is shown in a second place (a group of
+				// the upstream) and taken out of it again. What is written below the device afterwards, on either
+				// side of an outage, converges as before
+				ug := fmt.Sprintf("ug%d", i)
+				for _, rq := range []struct {
+					subj string
+					pts  data.Points
+				}{
+					{vlib.EdgeSubj(ug, s.uRoot), data.Points{{Type: data.PointTypeTombstone, Time: s.now(), Origin: "harness"}, {Type: data.PointTypeNodeType, Text: "group"}}},
+					{vlib.EdgeSubj(s.devID, ug), data.Points{{Type: data.PointTypeTombstone, Time: s.now(), Origin: "harness"}, {Type: data.PointTypeNodeType, Text: "device"}}},
+					{vlib.EdgeSubj(s.devID, ug), data.Points{{Type: data.PointTypeTombstone, Time: s.now(), Value: 1, Origin: "harness"}}},
+				} {
+					if e, err := vlib.SendAck(s.ncU, rq.subj, rq.pts); err != nil || e != "" {
+						step(fmt.Errorf("upstream housekeeping %s refused: %v %s", rq.subj, err, e))
+						break
+					}
+					s.note("U edge %s %v", rq.subj, witnessPoints(rq.pts))
+				}
+				mark("mirror-device@U")
+				if step(nil) {
+					s.waitPasses(1, "a pass after the device was shown in a second place upstream")
+				}
+				step(setLink(false))
+				for k := 0; k < 2 && step(nil); k++ {
+					side := []string{"D", "U"}[k%2]
+					mark("write@" + side)
+					step(s.write(side, false, v1.ID, "", data.Point{Type: "value", Key: "m", Time: s.now(), Value: float64(300 + k), Origin: "harness"}))
 				}
 			case "same-content-rewritten":
 				// an identity holds a value on both sides; during an outage the upstream writes another value and,
